@@ -125,7 +125,14 @@ class C15(Harness):
 
         # the same 3-D panel also in Fortran memory order (what a transposed / column-major user array looks like)
         start = {"nested": nested(), "nested_np": nested(True), "3d": arr3(), "3d[F-order]": np.asfortranarray(arr3())}
-        rep_of = lambda lab: "3d" if lab.startswith("3d") else lab  # noqa: E731
+        rep_of = lambda lab: "3d" if lab.startswith("3d") else ("mi" if lab.startswith("mi") else lab)  # noqa: E731
+        if ni >= 2:
+            # a multi-index panel whose instance labels are not ascending (a shuffled / sub-selected panel): the
+            # instance order is the order of appearance
+            labs = [10 - 3 * i for i in range(ni)]
+            mi0 = dp.from_3d_numpy_to_multi_index(arr3(), instance_index="instance", time_index="timepoints", column_names=names)
+            mi0.index = pd.MultiIndex.from_arrays([[labs[i] for i in range(ni) for _ in range(nt)], [t for _ in range(ni) for t in range(nt)]], names=["instance", "timepoints"])
+            start["mi[descending-labels]"] = mi0
         out = {"paths": {}}
         for s_rep, X0 in start.items():
             # all conversion paths of length <= 3
@@ -155,6 +162,9 @@ class C15(Harness):
             "cols": [bool(v) for v in dp.are_columns_nested(n0)],
             "mixed": [bool(v) for v in dp.are_columns_nested(n0.assign(flat=[1.0] * ni))],
         }
+        # primitive cells that are not numbers (a missing value coded as None, time stamps) are not series-valued
+        prim = pd.DataFrame({"a": pd.Series([1.0, None], dtype=object), "t": pd.to_datetime(["2020-01-01", "2020-01-02"])})
+        out["pred"]["primitives"] = [bool(v) for v in dp.are_columns_nested(prim)] + [bool(dp.is_nested_dataframe(prim))]
         # a nested column whose FIRST cell is a scalar placeholder is still nested (every cell counts)
         import numpy as _np
 
@@ -203,6 +213,7 @@ class C15(Harness):
         p = out["pred"]
         P.check("nestedness-predicates", p["nested"] and p["nested_np"] and not p["flat"] and not p["array"] and p["cols"] == [True] * nc and p["mixed"] == [True] * nc + [False])
         P.check("nestedness-predicates", p["scalar_first"] == [True, False, True] and p["scalar_later"] == [True, True], {"scalar_first": p["scalar_first"], "scalar_later": p["scalar_later"]})
+        P.check("nestedness-predicates", p["primitives"] == [False, False, False], {"primitives": p["primitives"]})
         for k, vals in out["check_X"].items():
             same(vals, "check_X-coercions", None, {"coercion": k})
 
